@@ -54,7 +54,7 @@ fn bulk_vs_single<I: Interpolate<i16>, const R: usize, const C: usize, const RC:
     kani::cover!(bulk[[0, 0]] != bulk[[M - 1, 0]] || bulk[[0, 0]] != bulk[[0, 1]], "W: results differ across requests or lanes");
 }
 
-//@ prop=C18,C01 tier=quick mem=10 timeout=3600 flags=modelmap uses=cut inst="quantiles_axis_mut vs quantile_axis_mut, Midpoint, ArrayViewMut2<i16> 3x2 F-order, Axis(0), qs = [0.75, 0.25, 0.75]" bounds="i8-range payloads, requests sharing a lower/higher index, a repeat; unwind 10"
+//@ prop=C18,C01:thorough tier=quick mem=10 timeout=3600 flags=modelmap uses=cut inst="quantiles_axis_mut vs quantile_axis_mut, Midpoint, ArrayViewMut2<i16> 3x2 F-order, Axis(0), qs = [0.75, 0.25, 0.75]" bounds="i8-range payloads, requests sharing a lower/higher index, a repeat; unwind 10"
 #[kani::proof]
 #[kani::unwind(10)]
 fn c18_bulk_vs_single_midpoint() {
@@ -75,7 +75,7 @@ fn c18_bulk_vs_single_nearest() {
 
 /// The entry for index i of bulk selection equals single selection of i (both cut to their
 /// contracts, which pin the value by rank; the steps are proved under C02).
-//@ prop=C18,C02 tier=quick mem=6 timeout=2400 flags=modelmap,stub uses=cut inst="get_many_from_sorted_mut(&[i0, i1])[i] vs get_from_sorted_mut(i) on Array1<u8> len 3" bounds="all contents, all index pairs; unwind 8"
+//@ prop=C18,C02:thorough tier=quick mem=6 timeout=2400 flags=modelmap,stub uses=cut inst="get_many_from_sorted_mut(&[i0, i1])[i] vs get_from_sorted_mut(i) on Array1<u8> len 3" bounds="all contents, all index pairs; unwind 8"
 #[kani::proof]
 #[kani::unwind(8)]
 #[kani::stub(core::slice::sort::unstable::sort, crate::c02::model_sort)]
@@ -121,7 +121,7 @@ fn moments_bulk_vs_single<const N: usize>(p: u16) {
     kani::cover!(ms[p as usize] != Q::int(0), "W: non-zero top moment");
 }
 
-//@ prop=C18,C07 tier=quick mem=6 timeout=3000 uses=Q inst="central_moments(3) vs central_moment(0..=3) on Array1<Q> len 3" bounds="x in 0..=3; unwind 18"
+//@ prop=C18,C07:thorough tier=quick mem=6 timeout=3000 uses=Q inst="central_moments(3) vs central_moment(0..=3) on Array1<Q> len 3" bounds="x in 0..=3; unwind 18"
 #[kani::proof]
 #[kani::unwind(18)]
 fn c18_moments_q_n3_p3() {
